@@ -70,32 +70,26 @@ def prod(
         polynomial([[[q0**3],
                      [q1**3+q0*q1**2]]])
         >>> numpoly.prod(poly, axis=[1, 2])
-        polynomial([[[q0**3*q1**3+q0**4*q1**2]]])
+        polynomial([q0**3*q1**3+q0**4*q1**2])
 
     """
     a = numpoly.aspolynomial(a)
     assert out is None
-    if keepdims:
-        if axis is None:
-            out = _prod(numpoly.reshape(a, -1), axis=0)
-            out = numpoly.reshape(out, (1,) * len(a.shape))
-            return out
-        elif isinstance(axis, int):
-            axis = [axis]
-
     if axis is None:
-        out = _prod(numpoly.reshape(a, -1), axis=0)
-
-    elif isinstance(axis, int):
-        out = _prod(a, axis=axis)
-
+        axes = tuple(range(a.ndim))
+    elif isinstance(axis, (int, numpy.integer)):
+        axes = (int(axis),)
     else:
-        for idx in axis:
-            a = _prod(a, axis=idx)
-            a = a[(slice(None),) * idx + (numpy.newaxis,)]
-        out = a
-
-    return out
+        axes = tuple(int(axis_) for axis_ in axis)
+    axes = tuple(axis_ + a.ndim if axis_ < 0 else axis_ for axis_ in axes)
+    assert len(set(axes)) == len(axes), "duplicate value in 'axis'"
+    shape = tuple(1 if idx in axes else dim for idx, dim in enumerate(a.shape))
+    # reduce from the last axis on, so remaining axis numbers stay valid
+    for axis_ in sorted(axes, reverse=True):
+        a = _prod(a, axis=axis_)
+    if keepdims:
+        a = numpoly.reshape(a, shape)
+    return a
 
 
 def _prod(a: ndpoly, axis: int) -> ndpoly:
